@@ -109,7 +109,7 @@ def run(props=None, only=None, jobs=12, include_open=False):
         base = make_base(tmp)
         work = []
         for name, expected, edits in mutants.BREAKING:
-            if only and only not in name:
+            if only and not any(o in name for o in only.split(',')):
                 continue
             if props and not (set(expected) & set(props)):
                 continue
@@ -125,7 +125,7 @@ def run(props=None, only=None, jobs=12, include_open=False):
                     meta = json.load(fh)
                 expected = meta.get("caught_by") or {}
                 name = "S-" + sd
-                if only and only not in name:
+                if only and not any(o in name for o in only.split(',')):
                     continue
                 if not expected or (props and not (set(expected) & set(props))):
                     continue
@@ -134,7 +134,7 @@ def run(props=None, only=None, jobs=12, include_open=False):
                 if silent:
                     work.append((tmp, base, "preserving", name + "-silent", None, pp, silent))
         for name, edits in mutants.PRESERVING:
-            if only and only not in name:
+            if only and not any(o in name for o in only.split(',')):
                 continue
             work.append((tmp, base, "preserving", name, None, edits, props))
         # behaviour-preserving refactorings kept as patches (too large for a string edit)
@@ -145,7 +145,7 @@ def run(props=None, only=None, jobs=12, include_open=False):
             for sd in sorted(os.listdir(pres_dir)):
                 pp = os.path.join(pres_dir, sd, "patch.diff")
                 name = "PP-" + sd
-                if not os.path.exists(pp) or (only and only not in name):
+                if not os.path.exists(pp) or (only and not any(o in name for o in only.split(','))):
                     continue
                 work.append((tmp, base, "preserving", name, None, pp, props))
         with ThreadPoolExecutor(max_workers=jobs) as ex:
